@@ -440,7 +440,23 @@ func InstEntries() []Entry {
 		{Name: "getelementptr-vector", Build: func(f *Frag) {
 			f.Kind("InstGetElementPtr")
 			f.Func("void")
-			switch f.N("form", 4) {
+			switch f.N("form", 7) {
+			case 4: // scalar base, NON-CONSTANT scalable index
+				p, i := f.Param("i32*"), f.Param("<vscale x 4 x i64>")
+				r := f.Res()
+				f.Line("%s = getelementptr i32, i32* %s, <vscale x 4 x i64> %s", r, p, i)
+				f.Use("<vscale x 4 x i32*>", r)
+			case 5: // scalable base, scalar index
+				p, i := f.Param("<vscale x 2 x i32*>"), f.Param("i64")
+				r := f.Res()
+				f.Line("%s = getelementptr i32, <vscale x 2 x i32*> %s, i64 %s", r, p, i)
+				f.Use("<vscale x 2 x i32*>", r)
+			case 6: // scalar base, struct path after a non-constant scalable index
+				f.Need(declS)
+				p, i := f.Param("%S*"), f.Param("<vscale x 2 x i32>")
+				r := f.Res()
+				f.Line("%s = getelementptr %%S, %%S* %s, <vscale x 2 x i32> %s, i32 1, i32 0", r, p, i)
+				f.Use("<vscale x 2 x i8*>", r)
 			case 0:
 				p, i := f.Param("<2 x i32*>"), f.Param("<2 x i64>")
 				r := f.Res()
